@@ -310,6 +310,45 @@ pub fn run(ctx: &Ctx) -> i32 {
         longs.push(deep);
     }
     acc = acc.merge(par_items(&longs, |e, acc| check(e, acc)));
+    // the same through the command line: every keyword whose construct the target cannot express,
+    // written as text, must parse to that construct and then be refused (a keyword mapped to a
+    // neighbouring supported node would compile)
+    {
+        use speclib::textspec::{Spec, VOCAB};
+        let mut texts: Vec<String> = vec![];
+        for kw in VOCAB {
+            let args: Vec<&str> = kw.args.iter().map(|_| "x").collect();
+            let core = std::iter::once(kw.word).chain(args).collect::<Vec<_>>().join(" ");
+            for (pre, suf) in [("", ""), ("-name a ", ""), ("", " -print"), ("-name a -o ", " -print0"), ("! ", ""), ("( ", " ) -fprint f")] {
+                texts.push(format!("{pre}{core}{suf}"));
+            }
+        }
+        for d in "abcdDfFgGhHiklmMnpPsStuUyYZ".chars() {
+            texts.push(format!("-printf '%{d}\\n'"));
+            texts.push(format!("-name a -fprintf f '%{d}'"));
+        }
+        let mut t = Acc::new();
+        for text in &texts {
+            let Spec::Accept { tree, .. } = speclib::textspec::parse(text) else { continue };
+            let bad = inexpressible(&tree);
+            t.states += 1;
+            t.transitions += 1;
+            if bad.is_empty() {
+                continue;
+            }
+            if let crate::subject::P::Ok(o, e) = crate::subject::parse_real(text) {
+                t.validated += 1;
+                if let C::Ok(_) = compile_render(&e, &o, "/dev") {
+                    t.violate(Violation::new(
+                        format!("C12:inexpressible-construct-compiled:{}:from-text", bad[0]),
+                        format!("{text:?} (which contains {bad:?}) parses to {} and compiles", conv::expr(&e).show()),
+                        json!({"kind": "text", "input": text}),
+                    ));
+                }
+            }
+        }
+        acc = acc.merge(t);
+    }
     // an unsupported test whose argument equals the argument of a supported test next to it
     // (tables keyed by the argument text), in plain and in framed programs, both orders
     {
@@ -368,6 +407,16 @@ pub fn run(ctx: &Ctx) -> i32 {
 }
 
 pub fn replay(w: &Value) -> Vec<Violation> {
+    if w["kind"] == "text" {
+        let text = w["input"].as_str().unwrap_or("");
+        if let (speclib::textspec::Spec::Accept { tree, .. }, crate::subject::P::Ok(o, e)) = (speclib::textspec::parse(text), crate::subject::parse_real(text)) {
+            let bad = inexpressible(&tree);
+            if !bad.is_empty() && matches!(compile_render(&e, &o, "/dev"), C::Ok(_)) {
+                return vec![Violation::new(format!("C12:inexpressible-construct-compiled:{}:from-text", bad[0]), format!("{text:?} compiles"), w.clone())];
+            }
+        }
+        return vec![];
+    }
     let mut acc = Acc::new();
     if let Ok(t) = serde_json::from_value::<Expr>(w["tree"].clone()) {
         check(&t, &mut acc);
